@@ -19,7 +19,9 @@ import (
 
 const c09IDBase = 0x80
 
-var c09Carriers = []string{"bytes", "bb", "buffer", "breader", "wtN", "reader", "short"}
+// "arena": []byte messages that are adjacent records of one buffer of the application (each slice's spare capacity
+// is the next writer's record)
+var c09Carriers = []string{"bytes", "arena", "bb", "buffer", "breader", "wtN", "reader", "short"}
 
 // multiWrite reports whether the head handler turns this message into more than
 // one low-level write (the two classes of the recorded findings).
@@ -28,7 +30,7 @@ func c09MultiWrite(pipe, carrier string, size int) string {
 	case "lf", "varint":
 		return "" // these encoders collect the body and emit one [][]byte
 	case "delim", "delim+text":
-		if carrier == "bytes" {
+		if carrier == "bytes" || carrier == "arena" {
 			return ""
 		}
 		return "reader" // MultiReader(body, delimiter): two reads, two writes
